@@ -5,7 +5,11 @@ import GrinVerif.Model.Bitmap
 compares roots byte-exactly.
 
 Ops (see the harness for the generator):
-* `new <respect>`                         start of a history (fresh accumulator, no outputs)
+* `new <respect>`                         start of a history (fresh accumulator, no outputs); `new 2` = history driven
+                                          through the real `Extension::{apply_block, rewind}` (`ext` mode): there the
+                                          model's `extApply` on the affected positions derived from the block contents is
+                                          proven equal to the from-scratch commitment (`Props.C15.extApply_eq_scratch`),
+                                          so a deviating committed accumulator is reported as a spec failure
 * `init [U] n`                            `BitmapAccumulator::init(U, n)` on a fresh accumulator; U becomes the unspent set
 * `block k [spent]`                       k outputs appended, `spent` (ascending) spent, then `apply_to_bitmap_accumulator`
 * `rewind n' [restored] [affected_pos]`   output set shrinks to n' leaves, `restored` un-spent, then `apply_to_bitmap_accumulator(affected_pos)`
@@ -32,6 +36,8 @@ structure St where
   /-- unspent leaf indices, ascending -/
   U : List Nat := []
   respect : Bool := true
+  /-- `ext` mode: block / rewind / reopen lines are compared with `cmpSpec` -/
+  spec : Bool := false
 
 def showRoot : RootRes Bytes → String
   | .zero => "zero"
@@ -74,11 +80,11 @@ def outPmmr (st : St) : OutputPmmr := { size := insertionToPmmrIndex st.n, leafS
 /-- run `apply_to_bitmap_accumulator`, keep the old accumulator on error (as `?` does) -/
 def step (st : St) (affected : List Nat) (impl : String) : St × Verdict :=
   let r := extApply realHF st.acc (outPmmr st) affected
-  ({ st with acc := r.getD st.acc }, cmpModel (showRes r) impl)
+  ({ st with acc := r.getD st.acc }, (if st.spec then cmpSpec else cmpModel) (showRes r) impl)
 
 def handle (st : St) (args : List String) (impl : String) : St × Verdict :=
   match args with
-  | ["new", r] => ({ respect := r == "1" }, .ok)
+  | ["new", r] => ({ respect := r != "0", spec := r == "2" }, .ok)
   | ["init", u, n] => match parseNatList u, nat? n with
     | some u, some n =>
       let r := Bitmap.init realHF Bitmap.new u n
@@ -101,7 +107,7 @@ def handle (st : St) (args : List String) (impl : String) : St × Verdict :=
     | none => (st, .unknown)
   | ["reopen"] =>
     let r := rebuildOnOpen realHF (outPmmr st)
-    ({ st with acc := r.getD st.acc }, cmpModel (showRes r) impl)
+    ({ st with acc := r.getD st.acc }, (if st.spec then cmpSpec else cmpModel) (showRes r) impl)
   | ["scratch"] =>
     -- the value the property fixes: the commitment computed from scratch over the unspent set
     (st, cmpSpec (match fromScratch realHF st.U st.n with
